@@ -65,6 +65,7 @@ theorem decodeEnvAV_v1 (N : Names) (ok : NamesOK N) (r : Rec) :
         simp [marshalEnvelopeV1, decodeEnvAV, foldOpt, stepEnvAV, i0, i1, i2, i3, intAV, parseInt_fmtInt, ht, hkm,
           EnvS.toRec, hbt, Rec.eraseId]
     · subst ht2
+      have hbt : b64Decode [] = some key := by simpa using hbt
       cases revoked <;> cases nrevOmit <;>
         simp [marshalEnvelopeV1, decodeEnvAV, foldOpt, stepEnvAV, i0, i1, i2, i3, intAV, parseInt_fmtInt, ht, hkm,
           EnvS.toRec, hbt, Rec.eraseId]
@@ -76,6 +77,7 @@ theorem decodeEnvAV_v1 (N : Names) (ok : NamesOK N) (r : Rec) :
         simp [marshalEnvelopeV1, decodeEnvAV, foldOpt, stepEnvAV, i0, i1, i2, i3, intAV, parseInt_fmtInt, ht,
           EnvS.toRec, hbt, Rec.eraseId]
     · subst ht2
+      have hbt : b64Decode [] = some key := by simpa using hbt
       cases revoked <;> cases nrevOmit <;> cases nparentOmit <;>
         simp [marshalEnvelopeV1, decodeEnvAV, foldOpt, stepEnvAV, i0, i1, i2, i3, intAV, parseInt_fmtInt, ht,
           EnvS.toRec, hbt, Rec.eraseId]
@@ -95,13 +97,13 @@ theorem decodeEnvAV_v2 (N : Names) (ok : NamesOK N) (r : Rec) :
     simp only [intAV] at i0 i1 i2 i3 hkm
     cases revoked <;> cases nrevOmit <;>
       simp [marshalEnvelopeV2, decodeEnvAV, foldOpt, stepEnvAV, i0, i1, i2, i3, intAV, parseInt_intAV, parseInt_fmtInt, hkm,
-        EnvS.toRec, hb]
+        EnvS.toRec, hb, b64Decode_encode]
   | none =>
     obtain ⟨nrev, nrevOmit, ncreated, nkey, nparent, nparentOmit, nkeyId, npCreated⟩ := N
     simp only at i0 i1 i2 i3
     cases revoked <;> cases nrevOmit <;> cases nparentOmit <;>
       simp [marshalEnvelopeV2, decodeEnvAV, foldOpt, stepEnvAV, i0, i1, i2, i3, intAV, parseInt_intAV, parseInt_fmtInt,
-        EnvS.toRec, hb]
+        EnvS.toRec, hb, b64Decode_encode]
 
 /-- **aws-v1 item round trip**: `dynamodbattribute.Unmarshal(MarshalMap(DynamoDBEnvelope(r)))` gives
 back every persisted field of `r`, for every record. -/
